@@ -498,6 +498,12 @@ def _prune_reason(cfg, rd, atoms, nid, fn, depth=0):
                     why = r
                 elif d.kind == "assign" and isinstance(d.value, ast.Compare) and norm(d.value).startswith("len("):
                     why = why or "arm is empty"  # nothing to prune
+                elif d.kind == "assign" and d.value is not None:
+                    # any other value that may be false ('flag and take_body'): the assignment itself sits under a reason
+                    r = _prune_reason(cfg, rd, guard_atoms(cfg, d.node), d.node, fn, depth + 1)
+                    if r is None:
+                        ok = False
+                    why = r or why
                 else:
                     ok = False
             if ok and falsy:
